@@ -288,10 +288,10 @@ int verif_case(const uint8_t *data, size_t size, Case &c) {
     decode_args(r, a);
     std::string fmt;
     bool null_format = false;
-    if (mode >= 0xA0) {                                   // raw bytes up to the first NUL (libFuzzer, seeds, enumerator)
+    if (mode >= 0xE0) {                                   // raw bytes up to the first NUL (libFuzzer, seeds, enumerator)
         while (!r.exhausted() && fmt.size() < 280) { uint8_t b = r.u8(); if (!b) break; fmt += (char)b; }
         c.label("mode:raw-bytes");
-    } else if (mode >= 0x60) {                            // token soup
+    } else if (mode >= 0x90) {                            // token soup
         size_t n = r.range(0, 24);
         for (size_t i = 0; i < n; i++) fmt += kTokens[r.u8() % kNumTokens];
         c.label("mode:token-soup");
@@ -303,7 +303,7 @@ int verif_case(const uint8_t *data, size_t size, Case &c) {
             apply_edit(fmt, edit, pos, kTokens[r.u8() % kNumTokens]);
             c.label(edit == 1 ? "grammar:cut" : edit == 2 ? "grammar:delete" : edit == 3 ? "grammar:insert" : "grammar:replace");
         } else c.label("grammar:unedited");
-        if (mode == 0x5F) { null_format = true; fmt.clear(); c.label("null-format"); }
+        if (mode == 0x8F) { null_format = true; fmt.clear(); c.label("null-format"); }
     }
     if (fmt.size() > 280) fmt.resize(280);
     { size_t z = fmt.find('\0'); if (z != std::string::npos) fmt.resize(z); }
@@ -340,7 +340,7 @@ long verif_enumerate(int shard, int nshards, int tier, verif::EnumReport &r) {
         std::string f = c10seeds::kTestFormats[i];
         for (size_t len = 0; len <= f.size(); len++)
             for (size_t l = 0; l < lists.size(); l++)
-                if (!run(f.substr(0, len), lists[l], len == f.size() / 2 && l == (size_t)(i % 10) && i % 37 == shard)) return r.evaluations;
+                if (!run(f.substr(0, len), lists[l], len == f.size() && l == (size_t)((i / 16) % 10) && i / 16 % 3 == 0)) return r.evaluations;
     }
     // (2) every single-position edit of the hand-written strings
     for (int i = shard; i < kNumHand * kNumTokens; i += nshards) {
